@@ -209,8 +209,9 @@ theorem inv_step (s : Cache) (op : Op) (h : Inv s) : Inv (step s op).1 := by
   | get n ev => exact inv_get s n ev h
   | unload n => exact inv_unload s n h
   | reopen => exact inv_init _ _
+  | reopenWith m => exact inv_init _ _
 
-theorem step_max (s : Cache) (op : Op) : (step s op).1.max = s.max := by
+theorem step_max (s : Cache) (op : Op) : (step s op).1.max = nextMax s.max op := by
   cases op with
   | update n d ev =>
     simp only [step, update]
@@ -226,6 +227,7 @@ theorem step_max (s : Cache) (op : Op) : (step s op).1.max = s.max := by
       · split <;> split <;> rfl
   | unload n => rfl
   | reopen => rfl
+  | reopenWith m => rfl
 
 /-- one concrete step produces the abstract map's output and commutes with `abs`,
     whatever legal eviction choice accompanies it -/
@@ -273,6 +275,7 @@ theorem step_refines (s : Cache) (op : Op) (h : Inv s) (hl : (step s op).2 ≠ .
           · simp [hleg] at hl
   | unload n => exact ⟨rfl, rfl⟩
   | reopen => exact ⟨rfl, rfl⟩
+  | reopenWith m => exact ⟨rfl, rfl⟩
 
 /-! ------------------------------------------------------------------------------------
   ## Property theorems (C16)
@@ -344,7 +347,7 @@ theorem get_after_set (s : Cache) (h : Inv s) (n : Name) (d : Bytes) (ev ev' : L
     (run s [.update n d ev, .get n ev']).2 = [.applied, .data d] := by
   have := (kvs_refines_map _ s h hl).1
   rw [this]
-  simp [specRun, specStep, Nat.not_lt.mpr hd]
+  simp [specRun, specStep, nextMax, Nat.not_lt.mpr hd]
 
 /-- the code's own choice is legal: evicting *everything* always satisfies `legalEv` when the
     claim fits the limit (so the loop of `recover_memory` can always succeed) -/
@@ -360,6 +363,16 @@ example :
     let ops := [Op.update "a" [1,2,3] [], .update "b" [4,5,6] ["a"], .get "a" ["b"], .reopen,
                 .get "b" []]
     (run (init 4 []) ops).2 = [.applied, .applied, .data [1,2,3], .done, .data [4,5,6]] := by
+  decide
+
+/-- another store object on the same directory with a SMALLER limit: a get of a value that does not fit is
+    refused and leaves the accounting untouched; a later set that fits is accounted exactly once -/
+example :
+    let ops := [Op.update "a" [1,2,3,4,5] [], .reopenWith 2, .get "a" [], .get "a" [], .update "a" [7] [],
+                .get "a" [], .unload "a"]
+    (run (init 8 []) ops).2 = [.applied, .done, .memErr, .memErr, .applied, .data [7], .done] ∧
+    (run (init 8 []) (ops.take 4)).1.mem = 0 ∧ (run (init 8 []) (ops.take 6)).1.mem = 1 ∧
+    (run (init 8 []) ops).1.mem = 0 := by
   decide
 
 /-! ### table store merge -/
